@@ -99,7 +99,7 @@ def build_exh(seq):
 
 
 def scale_case(cid, rng, schema):
-    """A deep chain (depth 14), a wide level (40 siblings), long and odd names; then moves, renames and removals in it."""
+    """A deep chain (depth 24), a wide level (40 siblings), long and odd names; then moves, renames and removals in it."""
     ops, metas = [], []
     n = 0
 
@@ -115,7 +115,7 @@ def scale_case(cid, rng, schema):
         return h
 
     chain = [create(None, "deep root")]
-    for d in range(13):
+    for d in range(23):
         chain.append(create(chain[-1], "level %d %s" % (d, "x" * (d * 20))))
     wide_parent = chain[2]
     wide = [create(wide_parent, "sib %03d" % i) for i in range(40)]
